@@ -114,6 +114,42 @@ func runC10(r *Runner, g *Gen, tier string) string {
 		r.Do(codecOp("decm", cfg, t, "", v.Sexp(), prior.Sexp()), true, "decm.prior")
 		r.Do(codecOp("decm", cfg, t, "", v.Sexp(), A("zero")), nontrivialVal(t, v), "decm.fresh-after")
 	}
+	// a value that encodes to nothing, decoded into a populated scalar / string / time / slice target at top level
+	for _, cfg := range cfgs {
+		for _, tv := range [][2]*Val{
+			{{K: "b"}, {K: "b", B: true}}, {{K: "i"}, {K: "i", I: -5}}, {{K: "u"}, {K: "u", U: 9}},
+			{{K: "f32"}, {K: "f32", U: 0x3fc00000}}, {{K: "f64"}, {K: "f64", U: 0x4009000000000000}},
+			{{K: "s"}, {K: "s", Data: []byte("old")}}, {{K: "y"}, {K: "y", Data: []byte{1, 2}}},
+			{{K: "T", Sec: -62135596800}, {K: "T", Sec: 1700000000, Nsec: 5}},
+		} {
+			var t *TyDef
+			switch tv[0].K {
+			case "b":
+				t = B("bool")
+			case "i":
+				t = B("int32")
+			case "u":
+				t = B("uint16")
+			case "f32":
+				t = B("f32")
+			case "f64":
+				t = B("f64")
+			case "s":
+				t = B("str")
+			case "y":
+				t = Slice(B("uint8"))
+			case "T":
+				t = &TyDef{K: "time"}
+			}
+			r.Do(codecOp("decm", cfg, t, "", tv[0].Sexp(), tv[1].Sexp()), true, "decm.top-zero")
+			if t.K != "slice" {
+				// the same kinds as elements of a reused slice and as a field behind a reused pointer
+				st := Struct(F("L", "1", Slice(t)), F("P", "2", Ptr(t)))
+				r.Do(codecOp("decm", cfg, st, "", (&Val{K: "r", L: []*Val{{K: "l", L: []*Val{tv[0], tv[1]}}, {K: "p", P: tv[0]}}}).Sexp(),
+					(&Val{K: "r", L: []*Val{{K: "l", L: []*Val{tv[1], tv[1], tv[1]}}, {K: "p", P: tv[1]}}}).Sexp()), true, "decm.elem-zero")
+			}
+		}
+	}
 	return "pairs (prior target contents, encoded value) of one generated type: Unmarshal into a target pre-populated with an unrelated value (longer/shorter slices, populated maps, non-nil pointers), then into a fresh variable through the same instance; compared: the full target value after each call (merge rules) ; the instance is shared by all ops of the run (pools, intern tables, codec caches carry history)"
 }
 
